@@ -115,9 +115,37 @@ def run(ctx):
                       describe=lambda c: c[3],
                       bucket=lambda c, r: c[0] + "/" + r.split(" ")[0] + ("/" + r.split(" ")[1] if r.startswith("lib") else ""))
 
+    # the same acceptance rule on a parser that has just FAILED on another input: an input whose (invalid or valid) call is followed by a syntax / tokenising error
+    POISON = ["doesnotexist(1) eq 1)", "now(1) eq 1)", "geo.area(x) lt 5 #", "trim() eq '", "concat(a, b) eq 'x' and )", "my.f(1) eq (", "length(a, b, c) ge", "substring(a) eq 1 and \u00bd"]
+    def after_poison(c):
+        p2 = ODataParser(); l2 = ODataLexer()
+        try:
+            p2.parse(l2.tokenize(c[4]))
+        except Exception:  # noqa
+            pass
+        return impl.real_parse(c[3], l2, p2)
+    stride = 1 if ctx.thorough else 7
+    pcases = [c + (POISON[k % len(POISON)],) for k, c in enumerate(cases[::stride])]
+    common.correspond(ctx, "parse-calls-after-a-failed-parse", pcases, real_fn=after_poison,
+                      model_reqs=lambda c: driver.req("parse", hexs(c[3])[1:-1]),
+                      nontrivial=lambda c, r: True, describe=lambda c: {"first (fails)": c[4], "then": c[3]},
+                      bucket=lambda c, r: r.split(" ")[0] + ("/" + r.split(" ")[1] if r.startswith("lib") else ""))
+
     def search(ctx):
         found = []
-        cand = [c for (_, c, r, m) in ctx.diffs] or cases
+        # cases that differ only after a failed parse on the same instance: replayed the same way
+        pdiff = [c for (n, c, r, m) in ctx.diffs if n == "parse-calls-after-a-failed-parse"]
+        if pdiff:
+            for c, sp in zip(pdiff, spec_expect(ctx, [c[:4] for c in pdiff])):
+                real = after_poison(c)
+                why = judge(c[:4], real, sp)
+                if why:
+                    found.append({"property": "C11", "first_input_on_the_same_parser": c[4], "input": c[3], "real_outcome": real, "specification": sp,
+                                  "why": why + " (on a parser instance that has just failed on the first input)", "signature": "C11:after-failed-parse:" + c[1] + ":" + str(len(c[2])),
+                                  "replay": "p = ODataParser(); l = ODataLexer(); parse the first input (it raises), then parse the input on the same p, l"})
+            if found:
+                return found
+        cand = [c for (_, c, r, m) in ctx.diffs if len(c) == 4] or cases
         try:
             specs = spec_expect(ctx, cand)
         except Exception as e:  # noqa
